@@ -65,6 +65,7 @@ static void vi_wait(void)
 
 static void vi_drawmsg(void)
 {
+	uc_trim(vi_msg);
 	led_printmsg(vi_msg[0] ? vi_msg : "\n", xrows, xhl ? "---" : "___");
 	vi_msg[0] = '\0';
 }
@@ -307,8 +308,10 @@ void ex_print(char *line)
 		led_print(line, xrows, 0, xhl ? "---" : "___");
 		term_pos(xrow - xtop, 0);
 	} else if (xvis) {
-		if (line && vi_printed == 0)
+		if (line && vi_printed == 0) {
 			snprintf(vi_msg, sizeof(vi_msg), "%s", line);
+			uc_trim(vi_msg);
+		}
 		if (line && vi_printed == 1)
 			led_print(vi_msg, xrows - 1, 0, xhl ? "-ex" : "");
 		if (vi_printed)
